@@ -692,15 +692,129 @@ fn check_alias(c: &AliasCase, obs: &mut Obs) -> Result<(), Fail> {
     Ok(())
 }
 
+
+// ------------------------------------------------------------------ lane: premature ids
+//
+// A response under an id that no operation has been given YET (the one the allocator hands out next, or one of the
+// following ones) is a response under an unknown id: it is discarded, and it must not disturb the operation that is
+// given that id afterwards. The client is idle when the stray arrives and the driver has read it before the next
+// operation is issued, so there is no doubt that it belongs to nobody.
+
+#[derive(Clone, Debug, Serialize, Deserialize)]
+pub struct PrematureCase {
+    pub start: i32,
+    pub pre: Vec<Single>,
+    /// (offset from the next id, entry instead of result, how many copies)
+    pub strays: Vec<(u8, bool, u8)>,
+    pub post: Vec<Single>,
+    pub sched: u64,
+}
+
+fn premature_strat(_: &Ctx) -> BoxedStrategy<PrematureCase> {
+    let start = prop_oneof![3 => 0i32..20, 1 => 120i32..130, 1 => 32760i32..32770, 1 => (i32::MAX - 12)..=(i32::MAX - 1)];
+    (start, vec(simops::single_strat(), 0..=3), vec((0u8..4, any::<bool>(), 1u8..=3), 1..=3), vec(simops::single_strat(), 1..=5), any::<u64>())
+        .prop_map(|(start, pre, strays, post, sched)| PrematureCase { start, pre, strays, post, sched })
+        .boxed()
+}
+
+fn check_premature(c: &PrematureCase, obs: &mut Obs) -> Result<(), Fail> {
+    let cc = c.clone();
+    let out = sim::run_sim(c.sched, async move {
+        let conn = sim::connect();
+        conn.msgmap.lock().unwrap().0 = cc.start;
+        let wire = conn.wire.clone();
+        let all: Vec<Single> = cc.pre.iter().chain(cc.post.iter()).copied().collect();
+        let kinds = all.clone();
+        // the server answers every request at once with the operation's own token
+        let srv = tokio::spawn(async move {
+            let mut ids: Vec<(usize, i64)> = Vec::new();
+            loop {
+                match wire.recv().await {
+                    Recv::Msg(Ok(m), _, _) => {
+                        if let Some(i) = simops::marker_index(&m) {
+                            if i < kinds.len() {
+                                ids.push((i, m.id));
+                                wire.push(&RespMsg::new(m.id, Resp::result(kinds[i].resp_tag(), Res::ok(&token(i, 0)))).encode());
+                            }
+                        }
+                    }
+                    Recv::Closed => break,
+                    _ => {}
+                }
+            }
+            ids
+        });
+        let mut ldap = conn.ldap.clone();
+        let mut res: Vec<Result<String, String>> = Vec::new();
+        let mut stray_ids: Vec<i64> = Vec::new();
+        for (i, k) in all.iter().copied().enumerate() {
+            if i == cc.pre.len() {
+                quiesce().await;
+                let next = conn.msgmap.lock().unwrap().0 as i64 + 1;
+                let mut b = Vec::new();
+                for (n, (off, entry, copies)) in cc.strays.iter().enumerate() {
+                    let id = next + *off as i64;
+                    if id >= i32::MAX as i64 {
+                        continue;
+                    }
+                    for _ in 0..*copies {
+                        let tok = format!("STRAY-{}", n);
+                        b.extend_from_slice(&if *entry { RespMsg::new(id, Resp::Entry(Entry::simple(&tok))) } else { RespMsg::new(id, Resp::result(all.get(i + *off as usize).map(|k| k.resp_tag()).unwrap_or(11), Res::ok(&tok))) }.encode());
+                    }
+                    stray_ids.push(id);
+                }
+                conn.wire.push(&b);
+                // the driver reads and discards them while no operation is outstanding
+                quiesce().await;
+            }
+            let r = match tokio::time::timeout(std::time::Duration::from_secs(3600), simops::exec_single(&mut ldap, k, &simops::marker(i))).await {
+                Ok(Ok(r)) => Ok(r.text),
+                Ok(Err(e)) => Err(err_kind(&e)),
+                Err(_) => Err("never-answered".into()),
+            };
+            let stop = r.is_err();
+            res.push(r);
+            if stop {
+                break;
+            }
+        }
+        let _ = ldap.unbind().await;
+        let ids = tokio::time::timeout(std::time::Duration::from_secs(60), srv).await.ok().and_then(|r| r.ok()).unwrap_or_default();
+        (res, ids, stray_ids)
+    });
+    let (res, ids, stray_ids) = match out {
+        SimResult::Done(v) => v,
+        SimResult::Hang => fail!("c01:hang", "operations never completed after responses under not-yet-issued ids"),
+    };
+    for (i, r) in res.iter().enumerate() {
+        let wid = ids.iter().find(|x| x.0 == i).map(|x| x.1).unwrap_or(-1);
+        match r {
+            Ok(text) => ensure!(text == &token(i, 0), "c01:misrouted", "operation {} (message id {}) observed {:?} instead of its own response", i, wid, text),
+            Err(e) => fail!("c01:premature-id-disturbs", "operation {} (message id {}) ended with {} although the server answered it; responses under the then unissued ids {:?} had arrived (and belonged to nobody) before it was issued", i, wid, e, stray_ids),
+        }
+    }
+    ensure!(res.len() == c.pre.len() + c.post.len(), "c01:server-problem", "not every operation ran");
+    let hit = ids.iter().filter(|(i, id)| *i >= c.pre.len() && stray_ids.contains(id)).count();
+    if hit > 0 {
+        obs.label("operation-got-an-id-that-a-stray-had-used");
+        obs.nontrivial((c.start, format!("{:?}{:?}", c.pre, c.post), format!("{:?}", c.strays)));
+    }
+    if hit >= 2 {
+        obs.label(">=2-operations-on-stray-ids");
+    }
+    Ok(())
+}
+
 pub fn property() -> Property {
     Property {
         id: "C01",
         level: "exploration",
-        rule: "generated histories on the simulated connection: 1-12 operations (7 single-result kinds, direct and EntriesOnly streaming searches with 0-6 items from entry/reference/intermediate, and streams the caller drops without finish() after k items so that the rest of their traffic arrives late; in 20% of the cases a window of 1-7 PDUs during which the client's socket cannot be written to (requests pile up in the driver while responses arrive); rarely a dropped stream with a tail of 130-400 late entries; in 0.6% of the cases one more search with 1100-2500 entries whose consumer reads nothing until every other operation has completed) on 1-4 cloned handles with start delays; a generated global merge order of all response PDUs (any interleaving preserving per-operation order; PDUs optionally glued into one read), 0-4 unsolicited PDUs (id 0, never-issued ids with result/entry/done payloads, extra results/entries for completed ids) at generated positions, a read plan (1-byte, random chunk sizes, forced yields between chunks) and a scheduler seed for select! branch order. Oracle: every operation's observed token sequence equals what the server sent under that operation's own wire id (last_id), nobody sees an unsolicited token, driver ends cleanly. The id counter is positioned at generated starts so that message ids need 1-4 content octets. Lane alias: a response whose negative message id has the same content octets as a live operation's id (read unsigned) must never reach that operation. Non-trivial: >=2 operations outstanding at once AND (an inversion between request and completion order, or entries of >=2 searches interleaved, or an unsolicited PDU between two PDUs of a live operation). Distinct = hash of (op kinds+handles, send order, chunk plan).",
+        rule: "generated histories on the simulated connection: 1-12 operations (7 single-result kinds, direct and EntriesOnly streaming searches with 0-6 items from entry/reference/intermediate, and streams the caller drops without finish() after k items so that the rest of their traffic arrives late; in 20% of the cases a window of 1-7 PDUs during which the client's socket cannot be written to (requests pile up in the driver while responses arrive); rarely a dropped stream with a tail of 130-400 late entries; in 0.6% of the cases one more search with 1100-2500 entries whose consumer reads nothing until every other operation has completed) on 1-4 cloned handles with start delays; a generated global merge order of all response PDUs (any interleaving preserving per-operation order; PDUs optionally glued into one read), 0-4 unsolicited PDUs (id 0, never-issued ids with result/entry/done payloads, extra results/entries for completed ids) at generated positions, a read plan (1-byte, random chunk sizes, forced yields between chunks) and a scheduler seed for select! branch order. Oracle: every operation's observed token sequence equals what the server sent under that operation's own wire id (last_id), nobody sees an unsolicited token, driver ends cleanly. The id counter is positioned at generated starts so that message ids need 1-4 content octets. Lane alias: a response whose negative message id has the same content octets as a live operation's id (read unsigned) must never reach that operation. Lane premature: 0-3 operations, then - the client idle - 1-3 responses (result or entry, 1-3 copies) under ids that have not been issued yet (the allocator's next id + 0..3, also just below 2^31-1), read by the driver before 1-5 further operations are issued one after the other and answered by the server: each must get its own response. Non-trivial: >=2 operations outstanding at once AND (an inversion between request and completion order, or entries of >=2 searches interleaved, or an unsolicited PDU between two PDUs of a live operation). Distinct = hash of (op kinds+handles, send order, chunk plan).",
         assumptions: &["tokio paused clock + RngSeed (tokio_unstable) make the history a function of the case", "late PDUs for completed ids are only scripted while ids cannot have been re-issued (no wrap-around within 12 operations)"],
         lanes: vec![
             Box::new(PLane { name: "routing", cases: |t| t.pick(2_500, 40_000), strat, check }),
             Box::new(PLane { name: "alias", cases: |t| t.pick(400, 5_000), strat: alias_strat, check: check_alias }),
+            Box::new(PLane { name: "premature", cases: |t| t.pick(1_200, 15_000), strat: premature_strat, check: check_premature }),
         ],
         workers: (8, 16),
     }
